@@ -234,6 +234,9 @@ def remove_SplitSliceRead(op, arch):
                 for tens, shape in zip((consumer.ifm, consumer.ifm2), consumer.ifm_shapes)
                 if tens == op.ofm
             )
+            # A slice that is broadcast by a binary elementwise op must keep its own shape: moving the read to the consumer
+            # replaces that shape by the shape of the unsliced tensor
+            and not (consumer.type.is_binary_elementwise_op() and consumer.ofm_shapes[0] != op.ofm_shapes[0])
             for consumer in op.ofm.consumer_list
         ):
             # SplitSliceRead can be performed by tensor consumer(s)
